@@ -76,18 +76,31 @@ fn check_line(st: &mut Stats, line: &Value) -> Vec<String> {
         facts: vec![],
         version: (2024, 1, 1),
     };
-    let bytes = enc::encode(&enc::abstract_of(&scn), 3);
-    match from_bytes(&bytes) {
-        Ok(ont) => {
-            if !ok {
-                d.push("from_bytes succeeded although HP:0000001 or HP:0000118 is missing".to_string());
-            } else {
-                check_ont("from_bytes", &ont, cats, &mut d);
+    // a second binary file flags every term but the two roots obsolete and gives every third one a replacement:
+    // the classification is a matter of the is_a links alone
+    let mut flagged = scn.clone();
+    for (i, t) in flagged.terms.iter_mut().enumerate() {
+        if t.id != 1 && t.id != 118 {
+            t.obsolete = true;
+            if i % 3 == 0 {
+                t.repl = Some(118);
             }
         }
-        Err(e) => {
-            if ok {
-                d.push(format!("from_bytes failed although both root terms are present: {e}"));
+    }
+    for (what, scn) in [("from_bytes", &scn), ("from_bytes (all non-root terms flagged obsolete)", &flagged)] {
+        let bytes = enc::encode(&enc::abstract_of(scn), 3);
+        match from_bytes(&bytes) {
+            Ok(ont) => {
+                if !ok {
+                    d.push(format!("{what} succeeded although HP:0000001 or HP:0000118 is missing"));
+                } else {
+                    check_ont(what, &ont, cats, &mut d);
+                }
+            }
+            Err(e) => {
+                if ok {
+                    d.push(format!("{what} failed although both root terms are present: {e}"));
+                }
             }
         }
     }
